@@ -22,7 +22,7 @@ UNIT = {
     "prelude": ["../common/number.rs", gen_ops.gen, "../common/floatk.rs", "../common/stdspecs.rs", "prelude.rs"],
     "specs": ["../common/divmod.spec", "arith.spec"],
     "explicit_use": ["Integer"],
-    "broadcast_use": ["ax_number::axiom_fixnum_range", "ax_number::axiom_ubig_nonneg", "ax_float::axiom_f_add_comm",
+    "broadcast_use": ["ax_number::axiom_fixnum_range", "ax_number::axiom_ubig_nonneg", "ax_number::axiom_q_sign_range", "ax_float::axiom_f_add_comm",
                       "ax_float::axiom_f_mul_comm", "ax_float::axiom_f_of_i64_finite",
                       "vstd::arithmetic::mul::lemma_mul_is_commutative"],
     "items": [
@@ -53,5 +53,11 @@ UNIT = {
         fn("int_floor_div"),
         fn("bitwise_complement"),
         fn("and"), fn("or"), fn("xor"),
+        fn("shr", extra=[("rename", "int", "int_v", "R13")]), fn("shl", extra=[("rename", "int", "int_v", "R13")]),
+        fn("max"), fn("min"),
+        fn("gcd"),
+        {"fn": "sign", "impl": r"impl Number", "file": F_FORMS, "emit_name": "Number_sign",
+         "rewrites": STD + [("replace", "*f == 0.0", "of64_is_zero(*f)", "R10")],
+         "wrap_pre": "impl Number {\n", "wrap_post": "}\n"},
     ],
 }
